@@ -178,6 +178,7 @@ func init() {
 			n = 40000
 		}
 		regexCases(c, n)
+		attrCases(c, n)
 		for _, e := range loadSpec() {
 			parseBlocksCase(c, []byte(e.Markdown))
 			parseTreeCase(c, []byte(e.Markdown))
